@@ -93,6 +93,13 @@ func init() {
 
 	// ---- C11: power loss with SyncEnable
 	c11gen := func(r *core.Rng, tier string) *prog.Program {
+		if r.Bool(0.12) || onlyConc {
+			// power fails while several goroutines are inside transactions
+			cp := gen.ConcParams{Modes: []int{0, 1}, Segs: []int64{128, 192, 256, 512}, MinTasks: 2, MaxTasks: 5, MaxDBs: 1, MaxSteps: 4, DS: []string{"kv", "list", "set", "zset"}}
+			p := gen.Conc(r, cp)
+			p.Cfg.Sync = true
+			return p
+		}
 		if r.Bool(0.3) {
 			p := mixCrash(r, tier)
 			p.Cfg.Sync = true
@@ -112,6 +119,9 @@ func init() {
 	c11 := func(tier string) func(uint64, *prog.Program) *RunResult {
 		return func(seed uint64, p *prog.Program) *RunResult {
 			p.Cfg.Sync = true // the premise of C11; shrinking must not drop it
+			if p.Tasks > 0 {
+				return concCrashExec(seed, p, snapPolicy(tier, false, false, true), false, 0.3)
+			}
 			res := crashExec(seed, p, snapPolicy(tier, false, false, true), judgeMode{Recovery: true, ContinueP: 0.3}, run.Options{Deferred: true})
 			res.Nontrivial = res.Images >= 3
 			return res
@@ -119,12 +129,15 @@ func init() {
 	}
 	deep11 := func(seed uint64, p *prog.Program) *RunResult {
 		p.Cfg.Sync = true
+		if p.Tasks > 0 {
+			return concCrashExec(seed, p, deepPolicy(false, false, true), false, 0.3)
+		}
 		return crashExec(seed, p, deepPolicy(false, false, true), judgeMode{Recovery: true, ContinueP: 0.3}, run.Options{Deferred: true})
 	}
 	Register(&Spec{
 		ID: "C11", Level: "fault_enumeration",
 		Rule: "as C10 with SyncEnable=true and power-loss images: every file reverts to its content at its last sync plus a seeded choice among its unsynced operations (none / all / an order-prefix with the last one torn / a subset), never-synced creations may vanish, unsynced removals may be undone; " +
-			"required: Open succeeds and observation is S or S+T; non-trivial = at least 3 distinct images",
+			"required: Open succeeds and observation is S or S+T; one run in eight is a scheduled multi-goroutine program judged like C10's (a prefix of the lock-grant order between 'acknowledged' and 'granted'); non-trivial = at least 3 distinct images",
 		Gen: c11gen, Exec: c11("quick"), Deep: deep11,
 		Classes: classes("recovery", "open-failed", "open-panic"),
 		Assume:  []string{"a sync of a file also makes its directory entry durable (granted by C11)", "directories are durable once created", "fsync/msync make the whole file content durable"},
